@@ -163,4 +163,10 @@ def r3_sources(ctx):
         r.check(s == "ConfirmedState::ConfirmedState{state: $1, cproof: $2}", "result", "Some(ConfirmedState{state: self, cproof})", "result = %s" % s, body.where(b))
 
 
-RULES = [r1_signature_gate, r2_threshold, r3_sources]
+def shared(ctx):
+    from rules.engine import core
+    from rules.props import c13
+    core.import_rules(ctx, [c13.r5_epoch_filters], "X13")
+
+
+RULES = [r1_signature_gate, r2_threshold, r3_sources, shared]
